@@ -18,10 +18,11 @@ Record lstate := {
   l_a2i : list (Z * option nat);
   l_i2a : list Z;
   l_points : option (list point);
-  l_pos : list (Z * point)
+  l_pos : list (Z * point);
+  l_gone : list Z          (* agents whose Agent.remove() was called: deregistered from the MODEL (not from the space) *)
 }.
 
-Definition l_init : lstate := {| l_a2i := []; l_i2a := []; l_points := None; l_pos := [] |}.
+Definition l_init : lstate := {| l_a2i := []; l_i2a := []; l_points := None; l_pos := []; l_gone := [] |}.
 
 (* torus_adj   space.py:1492-1509 *)
 Definition torus_adj (c : lcfg) (p : point) : result point :=
@@ -43,7 +44,7 @@ Definition build_cache (s : lstate) : lstate :=
   {| l_a2i := reindex 0 (l_a2i s);
      l_i2a := akeys (l_a2i s);
      l_points := Some (map (pos_or_none s) (akeys (l_a2i s)));
-     l_pos := l_pos s |}.
+     l_pos := l_pos s; l_gone := l_gone s |}.
 
 Inductive lop :=
 | LPlace (a : Z) (p : point)
@@ -51,7 +52,15 @@ Inductive lop :=
 | LRemove (a : Z)
 | LNeighbors (q : point) (r : Z) (ic : bool)
 | LDistance (p q : point)
-| LHeading (p q : point).
+| LHeading (p q : point)
+| LAgentRemove (a : Z).     (* agent.remove() of a plain mesa.Agent: model.deregister_agent(agent) - and NOTHING about
+                               the legacy space (mesa/agent.py Agent.remove; the docstring tells users to extend it) *)
+
+Definition gone_step (g : list Z) (o : lop) : list Z :=
+  match o with
+  | LAgentRemove a => if mem a g then g else a :: g      (* a second remove() is swallowed (suppress(KeyError)) *)
+  | _ => g
+  end.
 
 (* get_neighbors on a state whose cache is built   space.py:1426-1434 *)
 Definition neighbors_of (c : lcfg) (i2a : list Z) (rows : list point) (q : point) (r : Z) (ic : bool)
@@ -65,8 +74,9 @@ Definition neighbors_of (c : lcfg) (i2a : list Z) (rows : list point) (q : point
 Definition lstep (c : lcfg) (s : lstate) (o : lop) : lstate * option (result (list Z)) :=
   match o with
   | LPlace a p =>
-      if negb (dim_ok (lc_bounds c) p) || is_member a s
-         || (match aget a (l_pos s) with Some _ => true | None => false end)
+      (* an agent that is already placed may be placed again: the decorator only WARNS; the body then runs as for
+         a new agent - the existing dictionary key keeps its place, the cache is dropped, pos is overwritten *)
+      if negb (dim_ok (lc_bounds c) p)
       then (s, None)
       else
         match torus_adj c p with                                        (* fix C10-1: first *)
@@ -75,7 +85,7 @@ Definition lstep (c : lcfg) (s : lstate) (o : lop) : lstate * option (result (li
             ({| l_a2i := aset a None (l_a2i s);                          (* :1373 *)
                 l_i2a := [];                                            (* :1372 invalidate *)
                 l_points := None;
-                l_pos := aset a p' (l_pos s) |}, Some (Ok []))           (* :1375 *)
+                l_pos := aset a p' (l_pos s); l_gone := l_gone s |}, Some (Ok []))   (* :1375 *)
         end
   | LMove a p =>
       if negb (dim_ok (lc_bounds c) p) || negb (is_member a s) then (s, None)
@@ -84,7 +94,7 @@ Definition lstep (c : lcfg) (s : lstate) (o : lop) : lstate * option (result (li
         | Err k => (s, Some (Err k))
         | Ok p' =>
             let s1 := {| l_a2i := l_a2i s; l_i2a := l_i2a s; l_points := l_points s;
-                         l_pos := aset a p' (l_pos s) |} in               (* :1385 *)
+                         l_pos := aset a p' (l_pos s); l_gone := l_gone s |} in    (* :1385 *)
             match l_points s with
             | None => (s1, Some (Ok []))
             | Some rows =>                                              (* :1387-1391 *)
@@ -93,7 +103,7 @@ Definition lstep (c : lcfg) (s : lstate) (o : lop) : lstate * option (result (li
                     if Nat.ltb idx (length rows)
                     then ({| l_a2i := l_a2i s; l_i2a := l_i2a s;
                              l_points := Some (list_set idx p' rows);
-                             l_pos := l_pos s1 |}, Some (Ok []))
+                             l_pos := l_pos s1; l_gone := l_gone s |}, Some (Ok []))
                     else (s1, Some (Err E_INDEX))
                 | _ => (s1, Some (Err E_INDEX))
                 end
@@ -102,7 +112,7 @@ Definition lstep (c : lcfg) (s : lstate) (o : lop) : lstate * option (result (li
   | LRemove a =>
       if negb (is_member a s) then (s, Some (Err E_NOTIN))               (* :1399-1400 *)
       else ({| l_a2i := adel a (l_a2i s); l_i2a := []; l_points := None;
-               l_pos := adel a (l_pos s) |}, Some (Ok []))                (* :1401-1404 *)
+               l_pos := adel a (l_pos s); l_gone := l_gone s |}, Some (Ok []))  (* :1401-1404 *)
   | LNeighbors q r ic =>
       if negb (dim_ok (lc_bounds c) q) then (s, None)
       else
@@ -120,6 +130,9 @@ Definition lstep (c : lcfg) (s : lstate) (o : lop) : lstate * option (result (li
   | LHeading p q =>
       if negb (dim_ok (lc_bounds c) p && dim_ok (lc_bounds c) q) then (s, None)
       else (s, Some (Ok (diffv (lc_torus c) (lc_bounds c) p q)))
+  | LAgentRemove a =>
+      ({| l_a2i := l_a2i s; l_i2a := l_i2a s; l_points := l_points s; l_pos := l_pos s;
+          l_gone := gone_step (l_gone s) o |}, Some (Ok []))
   end.
 
 (* what the property talks about: space.agents IN ORDER (AgentSet(list(self._agent_to_index)): dict insertion order)
@@ -128,7 +141,8 @@ Definition l_view (s : lstate) : list Z :=
   Z.of_nat (length (l_a2i s))
   :: obs_rows_in_order (map (fun a => a :: match aget a (l_pos s) with Some p => p | None => [-999999] end)
                    (akeys (l_a2i s)))
-  ++ SEP :: zsort (akeys (l_pos s)).
+  ++ SEP :: zsort (akeys (l_pos s))
+  ++ SEP :: zsort (l_gone s).
 
 Definition l_obs (s : lstate) (r : option (result (list Z))) : list Z :=
   match r with
